@@ -311,21 +311,42 @@ PROPS["C08"] = {
 
 PROPS["C09"] = {
     "title": "Nearest-point queries return the global minimum",
-    "gen_modules": ["Basis", "Nearest"],
-    "corr_n": (0, 0),
+    "gen_modules": ["Consts", "Basis", "Lines", "FatLine", "Walk", "Nearest", "Roots"],
+    "corr_n": (4000, 100000),
     "search_n": (4000, 80000),
-    "technique": "Lean 4 theorems about nearest_point_on_curve_bezier_root_finder translated from the Rust source on every run (selection among candidates) + brute-force oracle on the real code",
-    "level_text": "Partial. nearest_unfold / nearest_is_argmin: for every curve, query point and WHATEVER distance_in_bezier_form and find_bezier_roots return, the generated function returns 0, 1 or a returned root "
-                  "strictly inside (0,1) - hence a parameter in [0,1] - whose squared distance is minimal among {0, 1} and all returned interior roots (pick_spec, by induction over the candidate list); "
-                  "Z_table: the generated coefficient table is the exact C(3,i)C(2,j)/C(5,i+j) table. "
-                  "NOT proved: completeness of find_bezier_roots (every interior critical point is returned, to tolerance) - the recursion's flatness / crossing heuristics - which is what global optimality "
-                  "needs; it is decided on the real code by the search against a brute-force minimum (1/4000 parameter grid + golden-section refinement) for every generated curve/point class.",
-    "level_note": "nearest_point, distance_to and path_closest_point consistency are checked on the real code by the search only. " + COMMON_NOTE,
-    "rule": "search: curves in a 100-unit box (arches, S-curves, loops, cusps, near-lines, points, coincident control points, closed) x query points (inside/outside hull, far away, on the curve, on the "
-            "medial axis of two branches, at end points); nearest_t within [0,1] and within 0.01 of the brute-force minimum distance; nearest_point/distance_to consistency; path_closest_point "
-            "against the per-curve minimum. Non-trivial: minimum not at an end point; distinct by input.",
-    "trusted_base": ["search oracle: 1/4000-grid brute force with golden-section refinement on an evaluation independent of the library"],
-    "assumptions": ["find_bezier_roots and distance_in_bezier_form are parameters of the theorems (not modelled)"],
+    "technique": "Lean 4 theorems about the WHOLE nearest-point pipeline translated from the Rust source on every run (find_bezier_roots with count_x_axis_crossings, flat_enough, find_x_intercept, Newton, "
+                 "de_casteljau_n, derivative_n, subdivide_n; the candidate loop of nearest_t; nearest_point, distance_to, path_closest_point) and a literal hand model of distance_in_bezier_form built on the "
+                 "translated Z table; Mathlib calculus over R for the global minimum; bit-exact Float mirror of all of it against the real code; brute-force oracle on the real code",
+    "level_text": "Partial (one named numerical hypothesis). Proved for ALL cubics, query points and t, over any ordered field: quintic_identity - the six points the model of distance_in_bezier_form builds "
+                  "(with the translated Z table) evaluate under the generated de_casteljau_n to (t, (C(t)-p).C'(t)), x-coefficients k/5; nearest_is_argmin - whatever the root finder returns, the result is 0, 1 "
+                  "or a returned root in (0,1) of least distance among these. Over R: distSq_hasDerivAt (the generated derivative4/de_casteljau3 tangent is the derivative of point_at_pos; d/dt |C-p|^2 = "
+                  "2 x quintic); nearest_global_min - if the returned list contains every zero of the quintic in (0,1) except zeros around which the quintic is >= 0, the returned parameter minimises the "
+                  "distance over ALL t in [0,1] (extreme value theorem + Fermat + monotonicity); nearest_approx_min - zeros only within delta of a returned value cost at most 2 M delta in squared distance, "
+                  "M = largest ordinate of the quintic's control polygon. Root finder (N = 6, any number of iterations): find_bezier_roots_is_loop - the generated loop equals the step function pop / prune "
+                  "/ flat leaf / depth-48 leaf / split; pruning_sound - a section with 0 crossings has its polynomial < 0 on the closed range or >= 0 on it, an interior zero only if it vanishes identically; "
+                  "subdivision_halves - the generated subdivide_n 6 0.5 returns the sections of the SAME polynomial over the two half ranges; one_crossing_at_most_one_zero - exactly one crossing gives at "
+                  "most one zero strictly inside (one-sign-change case of variation diminishing, proved for any degree in Lemmas/NearestDescartes); find_bezier_roots_leaves / zeros_accounted - when the loop "
+                  "ends, the sections it did not subdivide tile [0,1], and every zero in (0,1) (A) lies in a leaf with one crossing that passed flat_enough and contributed ONE value, or (B) is within 2^-49 "
+                  "of a returned value (depth limit of commit 24cd67f), or (C) has a neighbourhood with quintic >= 0; nearest_t_within(_distance) - hence nearest_t is within 2 M delta (squared distance; sqrt(2 M delta) in "
+                  "distance units) of the global minimum provided the loop ends within its fuel and FlatLeavesWithin delta holds. path_closest_point_argmin - the fold returns the FIRST curve of least distance with its own index, parameter, point, "
+                  "sqrt(distance^2); (0, 0, sqrt(f64::MAX), origin) for a path without curves (there is no None). NOT proved (named hypothesis FlatLeavesWithin): that the value reported for a flat "
+                  "one-crossing leaf (30 Newton steps from the chord intercept) is close to that leaf's zero; and that the loop ends within the model's fuel of 100000 iterations (observed: the bit-exact "
+                  "mirror would differ otherwise). Both are decided on the real code: the search compares with a brute-force minimum for every curve/query class and counts, for every sign change of the quintic, how closely find_bezier_roots returns it "
+                  "(counters quintic.sign_change.*: 99.9 % within 1e-9, all within 1e-3 in parameter); the driver checks that every mirrored run of the loop ends within 2000 iterations (observed maximum 191).",
+    "level_note": "The 0.01-unit accuracy of C09 is therefore: proved mechanism + measured flat-leaf accuracy. flat_enough compares max(0, signed distance) with 0.1, i.e. bounds the control polygon on ONE side of "
+                  "the chord only (reported). Theorems about the root finder are for N = 6 (the instance nearest_t uses); the correspondence exercises N = 2..9. " + COMMON_NOTE,
+    "rule": "corr (all bit-for-bit, no tolerance: every operation of the model is the IEEE operation of the code in the same order): find_bezier_roots on control polygons N = 2..9 (random, prescribed roots inside/outside, "
+            "double/triple roots that run into the depth limit, roots at 0/1, zero / one-signed / tiny / huge / dyadic coefficients, non-unit x range); nearest_point_on_curve_bezier_root_finder, nearest_t, "
+            "nearest_point, distance_to on 19 curve classes x 10 query classes (1 in 8 on a dyadic grid); path_closest_point on chains of 1-5 curves and the empty path; with cargo feature hook_c09_quintic and "
+            "hooks/C09_distance_in_bezier_form.diff also the 12 coefficients of the private distance_in_bezier_form. search: curves in a 100-unit box (arches, S-curves, loops, cusps, near-lines, points, coincident control "
+            "points, closed) x query points (inside/outside hull, far away, on the curve, on the medial axis of two branches, at end points); nearest_t within [0,1] and within 0.01 of the brute-force minimum "
+            "distance; nearest_point/distance_to consistency; path_closest_point against the per-curve minimum. Non-trivial: minimum not at an end point / at least one root returned / more than one curve; distinct by input.",
+    "trusted_base": ["Model/Nearest.lean: literal hand model of the private distance_in_bezier_form (iterator chains, in-place `+=`), tied by the bit-exact nearest_t mirror and, with the optional hook, coefficient by coefficient",
+                     "translator: final `into_inner`/`reverse` of subdivide_n is the configured tail `(first_weights, reverse second_weights)`; fuel 100000 for the loop of find_bezier_roots, 64 for de_casteljau_n",
+                     "search oracle: 1/4000-grid brute force with golden-section refinement on an evaluation independent of the library"],
+    "assumptions": ["FlatLeavesWithin: accuracy of flat_enough + Newton on a one-crossing leaf (numerical; measured by the search)",
+                    "the loop of find_bezier_roots ends within the model's fuel (100000 iterations)",
+                    "exact real arithmetic in the theorems; squared distances below f64::MAX in path_closest_point_argmin"],
 }
 
 PROPS["C07"] = {
